@@ -234,6 +234,21 @@ def iss_predicate(op_fields, impl):
                 allowed.add(EKU[k.strip().lower()])
         if any(int(e) not in allowed for e in plist(rec["eku"])):
             out.append("extended key usage outside the role's flags/ext_key_usage")
+        # Subject serialNumber: permitted by an entry of allowed_serial_numbers (glob when it contains '*', else equal)
+        if rec.get("ssn", "-") != "-":
+            import fnmatch
+            ssn = bytes.fromhex(rec["ssn"]).decode("utf-8", "replace")
+            pats = [bytes.fromhex(x).decode("utf-8", "replace") for x in kv.get("asn", "-").split(",") if x not in ("-", "")]
+            def ok(p):
+                if p == "":
+                    return False
+                if "*" in p:
+                    import re as _re
+                    return _re.fullmatch(".*".join(_re.escape(t) for t in p.split("*")), ssn, _re.S) is not None
+                return p == ssn
+            if not any(ok(p) for p in pats):
+                out.append({"what": "the certificate carries the Subject serialNumber %r, which no entry of the role's "
+                                    "allowed_serial_numbers %r permits" % (ssn, pats), "signature": "subject-serial-not-allowed"})
         # SAN kinds
         if rec["ip"] != "-" and kv["ipok"] != "1":
             out.append("IP SAN although the role has allow_ip_sans=false")
